@@ -634,7 +634,12 @@ def implicit_cases(ctx, rng, count, tag="implicit"):
             m_status = "ok" if m.startswith("ok ") else m.strip()
             ctx.count(f"{tag}:{leg}:{m_status.replace(' ', '_')}")
             if status != m_status:
-                ctx.disagreement(f"{leg} leg outcome differs: impl '{status}' model '{m_status}'", case)
+                if c["regime"] == "divergent":
+                    # huge step sizes: magnitudes of 1e3..1e10 make the 2e-8 reverse check and the 1e10
+                    # divergence threshold rounding-dependent; only "fails loudly on both sides" is compared
+                    ctx.count(f"{tag}:near_tie" if "ok" in (status, m_status) else f"{tag}:both_raise_different_class")
+                else:
+                    ctx.disagreement(f"{leg} leg outcome differs: impl '{status}' model '{m_status}'", case)
                 break
             if state is None:
                 break
@@ -674,7 +679,7 @@ def jacobian_cases(ctx, rng, count):
         coarse = syskind == "gauss" or spec["kind"].startswith("bcss") or common.frac(eps).denominator > 64
         b0 = 64 if coarse else 12
         total = kicks * k
-        tk = ["quad"] + (["quartic"] if b0 * 3**total <= 1e5 else []) + (["cubic"] if b0 * 2**total <= 1e5 else [])
+        tk = ["quad"] + (["quartic"] if b0 * 3**total <= 1.5e4 else []) + (["cubic"] if b0 * 2**total <= 1.5e4 else [])
         tkind = tk[int(rng.integers(len(tk)))] if len(tk) == 1 or rng.random() < 0.9 else "quad"
         if len(tk) > 1 and tkind == "quad":
             tkind = tk[1]
@@ -752,3 +757,131 @@ def jacobian_cases(ctx, rng, count):
         err = float(np.abs(J - mD).max())
         if not np.isfinite(err) or err > 1e-6 * scale:
             ctx.disagreement(f"finite-difference Jacobian of the real step differs from the model's propagated Jacobian by {err:.2e} (scale {scale:.2e})", case)
+
+
+# --------------------------------------------------------------------------------------
+# corpus: recorded failing inputs of past defects / mutations, replayed first on every run
+
+
+def replay_corpus(ctx, mod):
+    """Re-execute every corpus/<PROP>/*.json through the module's own `replay`; an entry that fails
+    again is reported as a violation with the recorded input."""
+    import json
+
+    d = common.VERIF / "corpus" / mod.PROP
+    if not d.is_dir():
+        return
+    for f in sorted(d.glob("*.json")):
+        obj = json.loads(f.read_text())
+        ctx.count("corpus_replayed")
+        try:
+            still = bool(mod.replay(ctx, obj))
+        except common.MachineryError:
+            raise
+        except Exception as e:  # noqa: BLE001
+            still = True
+            obj = {**obj, "replay_exception": f"{type(e).__name__}: {e}"}
+        if still:
+            keep = {k: v for k, v in obj.items() if k not in ("property", "kind", "signature", "what", "how_to_run")}
+            ctx.violation(obj.get("signature", f"corpus {f.name}"), f"corpus entry {f.name} fails again: {obj.get('what', '')}", keep)
+
+
+# --------------------------------------------------------------------------------------
+# C02 / C06: constrained leapfrog on linear constraints (all three projection solvers)
+
+
+def constrained_cases(ctx, rng, count, tag="constrained"):
+    import mici
+    from mici import solvers
+    from mici.errors import ConvergenceError, NonReversibleStepError
+    from mici.states import ChainState
+
+    proj_solvers = {
+        "newton": solvers.solve_projection_onto_manifold_newton,
+        "quasi_newton": solvers.solve_projection_onto_manifold_quasi_newton,
+        "newton_line_search": solvers.solve_projection_onto_manifold_newton_with_line_search,
+    }
+    cases = []
+    for i in range(count):
+        n = int(rng.integers(2, 5))
+        m = int(rng.integers(1, min(n, 3)))
+        # rows with a leading identity block so that a dyadic point on the manifold is explicit
+        R = np.array([[dy(rng, -1.0, 1.0, 4) for _ in range(n - m)] for _ in range(m)])
+        C = np.hstack([np.eye(m), R])
+        free = dyvec(rng, n - m, -1.0, 1.0, 8)
+        dvec = dyvec(rng, m, -1.0, 1.0, 8)
+        q = np.concatenate([dvec - R @ free, free])  # C q = d exactly (dyadic arithmetic)
+        mkind = ["none", "diag", "dense"][int(rng.integers(3))]
+        metric = rand_metric(rng, n, mkind)
+        k = int(rng.integers(1, 3))
+        tkind = ["quad", "cubic", "quartic"][int(rng.integers(3))] if k == 1 else ["quad", "cubic"][int(rng.integers(2))]
+        cases.append({"C": C, "d": dvec, "metric_kind": mkind, "metric": metric, "target": rand_target(rng, n, tkind),
+                      "solver": list(proj_solvers)[i % 3], "n_inner": int(rng.integers(1, 4)), "k": k,
+                      "eps": [0.125, 0.25, 0.0625][int(rng.integers(3))], "dir": int(rng.choice([1, -1])),
+                      "q": q, "p_raw": dyvec(rng, n, -1.0, 1.0, 16)})
+    reqs, live = [], []
+    for c in cases:
+        n = len(c["q"])
+        try:
+            Marr = metric_array(c["metric"], n)
+            N = exact_inverse(Marr)
+            Nf = np.array([[float(x) for x in r] for r in N])
+            Cq = [[common.frac(x) for x in r] for r in c["C"]]
+            G = [[sum(Cq[i][a] * N[a][b] * Cq[j][b] for a in range(n) for b in range(n)) for j in range(len(Cq))] for i in range(len(Cq))]
+            Ginv = exact_inverse([[g for g in r] for r in G])
+            nld, grad = target_funcs(c["target"])
+            Cm, dv = c["C"], c["d"]
+            system = mici.systems.DenseConstrainedEuclideanMetricSystem(
+                nld, lambda x, Cm=Cm, dv=dv: Cm @ x - dv, metric=c["metric"], grad_neg_log_dens=grad,
+                jacob_constr=lambda x, Cm=Cm: Cm, dens_wrt_hausdorff=True)
+            integ = mici.integrators.ConstrainedLeapfrogIntegrator(
+                system, c["eps"], n_inner_step=c["n_inner"], projection_solver=proj_solvers[c["solver"]])
+            st = ChainState(pos=c["q"].copy(), mom=c["p_raw"].copy(), dir=c["dir"])
+            c["p"] = np.array(system.project_onto_cotangent_space(st.mom.copy(), st))
+            _ = Nf
+        except Exception as e:  # noqa: BLE001
+            ctx.disagreement(f"constructing constrained system/integrator raised {type(e).__name__}: {e}", _jsonable(c))
+            continue
+        reqs.append(f"con {mstr(c['C'])} {common.vstr(c['d'])} {mstr(N)} {mstr(Ginv)} {tstr(c['target'])} {c['n_inner']} "
+                    f"{common.fstr(c['eps'])} {c['dir']}/1 {c['k']} {common.vstr(c['q'])} {common.vstr(c['p'])}")
+        live.append((c, integ))
+    res = common.run_driver("C02", reqs)
+
+    def impl_leg(integ, q, p, d, k):
+        s = ChainState(pos=np.array(q, dtype=float), mom=np.array(p, dtype=float), dir=d)
+        try:
+            for _ in range(k):
+                s = integ.step(s)
+        except ConvergenceError:
+            return "err convergence", None
+        except NonReversibleStepError:
+            return "err nonReversible", None
+        return "ok", (s.pos.copy(), s.mom.copy())
+
+    for (c, integ), line in zip(live, res, strict=True):
+        case = _jsonable(c)
+        if line == "bad-op":
+            raise common.MachineryError(f"driver rejected request for {case}")
+        mf, _, mb = line.partition(" | ")
+        try:
+            f_status, f_state = impl_leg(integ, c["q"], c["p"], c["dir"], c["k"])
+            b_status, b_state = ("-", None) if f_state is None else impl_leg(integ, f_state[0], f_state[1], -c["dir"], c["k"])
+        except Exception as e:  # noqa: BLE001
+            ctx.disagreement(f"ConstrainedLeapfrogIntegrator.step raised {type(e).__name__}: {e}", case)
+            continue
+        ctx.case(case, nontrivial=True)
+        ctx.count(f"{tag}:{c['solver']}:n_inner={c['n_inner']}:target={c['target']['kind']}")
+        for leg, status, state, mm in (("forward", f_status, f_state, mf), ("backward", b_status, b_state, mb)):
+            m_status = "ok" if mm.startswith("ok ") else mm.strip()
+            if status != m_status:
+                ctx.disagreement(f"{leg} leg outcome differs: impl '{status}' model '{m_status}'", case)
+                break
+            if state is None:
+                break
+            mq, mp = parse_state(mm[3:])
+            scale = max(1.0, float(np.abs(state[0]).max()), float(np.abs(state[1]).max()))
+            if not all(abs(float(a) - float(b)) <= 1e-8 * scale for a, b in zip(list(state[0]) + list(state[1]), mq + mp, strict=True)):
+                ctx.disagreement(
+                    f"{leg} state after {c['k']} constrained step(s) differs: impl pos {state[0].tolist()} mom {state[1].tolist()} "
+                    f"model pos {[float(x) for x in mq]} mom {[float(x) for x in mp]}", case)
+                break
